@@ -75,7 +75,8 @@ PROPERTY AbsSpec
 CHECK_DEADLOCK FALSE
 """
 FWD_MODELS = {"quick": [dict(N=4, MaxAr=2, WithConst=True, KindMode="edge")],
-              "thorough": [dict(N=4, MaxAr=3, WithConst=True, KindMode="edge"), dict(N=5, MaxAr=2, WithConst=False, KindMode="edge")]}
+              "thorough": [dict(N=3, MaxAr=3, WithConst=True, KindMode="edge"), dict(N=4, MaxAr=2, WithConst=True, KindMode="edge"), dict(N=5, MaxAr=2, WithConst=False, KindMode="node"),
+                           dict(N=4, MaxAr=3, WithConst=False, KindMode="node")]}
 
 
 def fwd_model(N, MaxAr=2, WithConst=False, KindMode="edge", mutant=False, timeout=14000):
